@@ -139,16 +139,27 @@ void bn_set_bit(bn_t a, uint_t bit, int value) {
 
 	RLC_RIP(bit, d, bit);
 
-	bn_grow(a, d);
-
 	if (value == 1) {
-		a->dp[d] |= ((dig_t)1 << bit);
-		if ((d + 1) > a->used) {
-			a->used = d + 1;
+		RLC_TRY {
+			/* The bit lives in digit d, so d + 1 digits are needed. */
+			bn_grow(a, d + 1);
+			/* The digits above the most significant one hold no value yet. */
+			for (int i = a->used; i <= d; i++) {
+				a->dp[i] = 0;
+			}
+			a->dp[d] |= ((dig_t)1 << bit);
+			if ((d + 1) > a->used) {
+				a->used = d + 1;
+			}
+		} RLC_CATCH_ANY {
+			RLC_THROW(ERR_CAUGHT);
 		}
 	} else {
-		a->dp[d] &= ~((dig_t)1 << bit);
-		bn_trim(a);
+		/* A bit above the most significant digit is already clear. */
+		if (d < a->used) {
+			a->dp[d] &= ~((dig_t)1 << bit);
+			bn_trim(a);
+		}
 	}
 }
 
